@@ -744,7 +744,7 @@ impl Check for C08 {
         "exploration"
     }
     fn rule(&self) -> String {
-        "inbound byte strings are fed to the real client (a) right after CONNACK, with a QoS 1 publish, a QoS 2 publish, a SUBSCRIBE and an UNSUBSCRIBE in flight, and (b) in place of the CONNACK; an independent three-valued classifier (MustAccept with fields / MustReject with the rule / DontCare) judges every frame: MustAccept => no error and the fields observable unchanged (delivery, handle completion, Rejected(code), negotiated limits), MustReject => Peer(InvalidPacket), handle dead, no partial effect, DontCare => clean outcome only; panics (index, overflow, unwrap, debug_assert) anywhere are violations. Inputs: EXHAUSTIVE all byte strings of length <= 2 (quick) / <= 3 (thorough) in both contexts and all 256 first bytes x 9 remaining-length encodings; GENERATIVE valid packets of all ten server types with random legal property sets and boundary sizes, then 13 mutation operators; random read chunkings; one generated stream in three stalls at a random offset (inside a header, a length, a body, between two packets), the poll() waiting there is given up once or twice and later calls carry on; PUBLISH packets with remaining length 127/128/16383/16384/2097151/2097152 in a buffer they fit exactly, amply, or miss by one byte; torn-packet-then-reconnect: k bytes of a valid packet (or of the CONNACK) read, connection dropped / forgotten / connect() given up, same Session connected again, the new CONNACK and the next frame judged. A frame that fits the buffer but which the client gave up on after reading part of it is judged by the call that gave up. Non-trivial iff a frame was classified MustAccept with >=1 property or MustReject; distinct = (context, class, rule/type) x abstract trace.".into()
+        "inbound byte strings are fed to the real client (a) right after CONNACK, with a QoS 1 publish, a QoS 2 publish, a SUBSCRIBE and an UNSUBSCRIBE in flight, and (b) in place of the CONNACK; an independent three-valued classifier (MustAccept with fields / MustReject with the rule / DontCare) judges every frame: MustAccept => no error and the fields observable unchanged (delivery, handle completion, Rejected(code), negotiated limits), MustReject => Peer(InvalidPacket), handle dead, no partial effect, DontCare => clean outcome only; panics (index, overflow, unwrap, debug_assert) anywhere are violations. Inputs: EXHAUSTIVE all byte strings of length <= 2 (quick) / <= 3 (thorough) in both contexts and all 256 first bytes x 9 remaining-length encodings; GENERATIVE valid packets of all ten server types with random legal property sets and boundary sizes, then 13 mutation operators; random read chunkings; one generated stream in three stalls at a random offset (inside a header, a length, a body, between two packets), the poll() waiting there is given up once or twice and later calls carry on; PUBLISH packets with remaining length 127/128/16383/16384/2097151/2097152 in a buffer they fit exactly, amply, or miss by one byte; torn-packet-then-reconnect: k bytes of a valid packet (or of the CONNACK; one case in three a PUBLISH with a Remaining Length of two or three bytes, half of those cut inside the length field) read, connection dropped / forgotten / connect() given up, same Session connected again, the new CONNACK and the next frame judged. A frame that fits the buffer but which the client gave up on after reading part of it is judged by the call that gave up. Non-trivial iff a frame was classified MustAccept with >=1 property or MustReject; distinct = (context, class, rule/type) x abstract trace.".into()
     }
     fn assumptions(&self) -> Vec<String> {
         vec![
@@ -767,7 +767,7 @@ impl Check for C08 {
         if tier == Tier::Quick { 500 } else { 5000 }
     }
     fn required_counters(&self) -> Vec<&'static str> {
-        vec!["mustaccept_frames", "mustreject_frames", "bad_headers", "publishes_delivered_verbatim", "acks_matching_inflight", "connacks_accepted_verbatim", "exhaustive_inputs", "exact_fit_mustaccept_frames", "connects_after_refused_handshake", "length_class_boundary_frames", "reconnects_after_a_torn_packet"]
+        vec!["mustaccept_frames", "mustreject_frames", "bad_headers", "publishes_delivered_verbatim", "acks_matching_inflight", "connacks_accepted_verbatim", "exhaustive_inputs", "exact_fit_mustaccept_frames", "connects_after_refused_handshake", "length_class_boundary_frames", "reconnects_after_a_torn_packet", "connections_ended_inside_a_multi_byte_remaining_length"]
     }
     fn exhaustive(&self) -> bool {
         true
@@ -881,11 +881,25 @@ impl Check for C08 {
                 // again: the new CONNACK and the packets after it are judged like any others
                 RX_CELL.with(|c| c.set(*rng.pick(&[96usize, 128, 200])));
                 let pre = rng.chance(1, 3);
-                let torn = rc::encode_server(&rand_valid(&mut rng, !pre));
+                let mut torn = rc::encode_server(&rand_valid(&mut rng, !pre));
                 if torn.len() < 2 {
                     return out;
                 }
-                let k = 1 + rng.below(torn.len() - 1);
+                let mut k = 1 + rng.below(torn.len() - 1);
+                // one case in three: the torn packet is long enough for a Remaining Length of two or
+                // three bytes, and half of those are cut inside that length field
+                if !pre && rng.chance(1, 3) {
+                    let three = rng.chance(1, 3);
+                    RX_CELL.with(|c| c.set(if three { 20_000 } else { *rng.pick(&[300usize, 400, 16_390]) }));
+                    let plen = if three { rng.range(16_390, 17_000) } else { rng.range(126, 260) };
+                    let qos = rng.below(3) as u8;
+                    torn = rc::encode_server(&SPacket::Publish { dup: false, qos, retain: false, topic: "long".into(), pid: if qos > 0 { Some(*rng.pick(&[1u16, 300, 65535])) } else { None }, props: vec![], payload: (0..plen).map(|i| (i * 5 + 1) as u8).collect() });
+                    let nlen = if torn.len() > 16_386 { 3 } else if torn.len() > 129 { 2 } else { 1 };
+                    k = if rng.chance(1, 2) && nlen > 1 { 2 + rng.below(nlen - 1) } else { 1 + rng.below(torn.len() - 1) };
+                    if nlen > 1 && k >= 2 && k <= nlen {
+                        out.count("connections_ended_inside_a_multi_byte_remaining_length", 1);
+                    }
+                }
                 let chunk = *rng.pick(&[Chunk::All, Chunk::One, Chunk::Rand, Chunk::Fixed(2)]);
                 let cfg = CaseCfg { rx: rx(), tx: 512, keepalive: 0, ..CaseCfg::default() };
                 let mut steps = vec![];
